@@ -487,6 +487,25 @@ def b_c16(tier):
                     same("refused write_rows")
                 df.write_cell(cell(types[0], 40, 0), position=(1, 0)); model[1][0] = cell(types[0], 40, 0); same("write_cell by position")
                 check(df.read_cell(position=(1, 0)) == model[1][0], "read_cell by position differs", expected=model[1][0])
+                # read_columns: every ordered selection of up to all columns, by index and by name, whole and sliced, both groupings
+                if len(names) >= 2 and model:
+                    sels = [list(c) for r_ in range(2, len(names) + 1) for c in itertools.permutations(range(len(names)), r_)]
+                    for sel in (sels if len(sels) <= 40 else sels[::max(1, len(sels) // 40)] + [list(range(len(names)))[::-1]]):
+                        for how in ("index", "name"):
+                            for sl in (None, slice(1, None)):
+                                kw = dict(index=sel) if how == "index" else dict(name=[names[c] for c in sel])
+                                if sl is not None:
+                                    kw["slc"] = sl
+                                rows_m = model if sl is None else model[sl]
+                                got = df.read_columns(**kw)
+                                ok = list(got.dtype.names) == [names[c] for c in sel] and [list(r_) for r_ in got.tolist()] == [[r_[c] for c in sel] for r_ in rows_m]
+                                check(ok, "read_columns does not return the requested columns in the requested order", columns=sel, by=how, sliced=sl is not None,
+                                      got_names=list(got.dtype.names))
+                                gc = df.read_columns(group_by_cols=True, **kw)
+                                check([list(x) for x in gc.tolist()] == [[str(r_[c]) if isinstance(gc.flat[0], str) else r_[c] for r_ in rows_m] for c in sel]
+                                      or [[type(v)(x) if not isinstance(v, str) else x for x, v in zip(col, [r_[c] for r_ in rows_m])] for col, c in zip(gc.tolist(), sel)]
+                                      == [[r_[c] for r_ in rows_m] for c in sel],
+                                      "read_columns(group_by_cols=True) does not return the requested columns in the requested order", columns=sel, by=how)
                 # a second handle that has looked at the columns before a column is appended through the first
                 h2 = b.data_frames[df.name]; seen = (list(h2.column_names), tuple(h2.df_shape))
                 # a new column through the SAME handle whose shape was read before
@@ -1114,6 +1133,7 @@ def b_c18(tier):
         s = f.create_section("sess", "t"); s.create_property("ints", [1, 2, 3]); s.create_property("floats", [0.5, 1.5]).unit = "mV"
         p = s.create_property("text", ["a", "ünï"]); p.definition = "words"; s.create_property("flag", [True]); s.create_property("one", [7.25])
         sub = s.create_section("sub", "t"); sub.create_property("deep", [1.0, 2.0, 3.0]); f.create_section("empty", "t")
+        sub.create_property("novalues", nixio.DataType.Double); s.create_property("cleared", [1, 2]).values = []
         b = f.create_block("blk", "t"); a0 = b.create_data_array("plain", "t", data=np.arange(6.0).reshape(2, 3))
         a0.append_sampled_dimension(0.5, label="x", unit="s"); a0.append_set_dimension(["a", "b", "c"])
         arrs = []
@@ -2034,6 +2054,11 @@ def b_c14(tier):
         "mtag positions width": ("MultiTag:mtag", lambda f, b: (setattr(b.multi_tags["mtag"], "extents", None),
                                                                  setattr(b.multi_tags["mtag"], "positions", b.data_arrays["other"])),
                                  [VE.PositionsDimensionMismatch]),
+        "one of two references has another rank": ("Tag:tag1d", lambda f, b: b.tags["tag1d"].references.append(b.data_arrays["sig"]),
+                                                   [VE.PositionDimensionMismatch, VE.ReferenceUnitsMismatch]),
+        "extent fits only one of two references": ("Tag:tag1d", lambda f, b: (setattr(b.tags["tag1d"], "extent", [1.0]),
+                                                                            b.tags["tag1d"].references.append(b.data_arrays["sig"])),
+                                                   [VE.PositionDimensionMismatch, VE.ExtentDimensionMismatch, VE.ReferenceUnitsMismatch]),
         "missing type": ("DataArray:pos", lambda f, b: raw(b.data_arrays["pos"]).attrs.__delitem__("type"), [VE.NoType]),
         "missing date": ("Group:grp", lambda f, b: raw(b.groups["grp"]).attrs.__delitem__("created_at"), [VE.NoDate]),
         "missing id": ("Source:child", lambda f, b: raw(b.sources["src"].sources["child"]).attrs.__delitem__("entity_id"), [VE.NoID]),
@@ -2177,6 +2202,17 @@ def b_c07(tier):
                       offset=off, got=r_ex, expected=[a_, e_ - 1] if e_ > a_ else None)
             check(dim.range_indices(pos[2] + si / 4, pos[2] + si / 2, SliceMode.Inclusive) is None, "an interval between two samples is not reported empty",
                   interval=si, offset=off)
+    # a descriptor whose interval / offset were first whole numbers and are then set to fractions (and back)
+    da = fresh_array(); dim = da.append_sampled_dimension(2, offset=3)
+    for si2, off2 in ((1.5, -1.25), (4, 1), (0.125, 0.5), (3, -2), (2.5, 7)):
+        dim.sampling_interval = si2; dim.offset = off2
+        d2 = b.data_arrays[da.name].dimensions[0]
+        check(d2.sampling_interval == si2 and d2.offset == off2 and dim.sampling_interval == si2 and dim.offset == off2,
+              "interval / offset do not read back as set", set=[si2, off2], got=[d2.sampling_interval, d2.offset])
+        for j in range(6):
+            check(abs(dim.position_at(j) - (off2 + j * si2)) < 1e-12 and dim.index_of(off2 + j * si2) == j and len(dim.axis(5)) == 5 and
+                  abs(dim.axis(5)[4] - (off2 + 4 * si2)) < 1e-12, "conversions do not follow a changed interval / offset", set=[si2, off2], i=j,
+                  position=_safe(lambda: dim.position_at(j)))
     # range dimensions: several tick vectors incl. repeated and single ticks
     for ticks in ([0.5], [1.0, 2.0, 4.0, 8.0], [-3.0, -1.5, 0.0, 0.25, 10.0], [1.0, 2.0, 2.0, 3.0], [0.0, 1e-3, 2e-3]):
         da = fresh_array(len(ticks)); dim = da.append_range_dimension(ticks=ticks); n = len(ticks)
@@ -2334,6 +2370,12 @@ def b_c02live(tier):
         ("tag created", lambda g: g.blocks[0].create_tag("newt", "t", [0.0])),
         ("metadata link changed", lambda g: setattr(g.blocks[0].data_arrays["same"], "metadata", g.sections["other"])),
         ("entity definition", lambda g: (setattr(g.blocks[0], "definition", "d9"), setattr(g.blocks[0].groups["grp"], "definition", "d9"))),
+        ("numeric attributes: whole number, then fraction", lambda g: (setattr(g.blocks[0].data_arrays["same"].dimensions[0], "sampling_interval", 2),
+                                                                      setattr(g.blocks[0].data_arrays["same"].dimensions[0], "offset", 3),
+                                                                      setattr(g.blocks[0].data_arrays["same"], "expansion_origin", 1),
+                                                                      setattr(g.blocks[0].data_arrays["same"].dimensions[0], "sampling_interval", 1.5),
+                                                                      setattr(g.blocks[0].data_arrays["same"].dimensions[0], "offset", -1.25),
+                                                                      setattr(g.blocks[0].data_arrays["same"], "expansion_origin", 0.75))),
     ]
     live = _collect(f); _observe(live)          # every object has been read once (whatever it may remember, it remembers now)
     for name, step in steps:
@@ -2357,6 +2399,10 @@ def b_c02live(tier):
             live[k_] = fresh[k_]          # (one stale handle is reported once, not again after every later step)
         if not stale:
             N[0] += 1
+    d0 = f.blocks[0].data_arrays["same"].dimensions[0]
+    check((d0.sampling_interval, d0.offset, f.blocks[0].data_arrays["same"].expansion_origin) == (1.5, -1.25, 0.75),
+          "numeric attributes first stored as whole numbers do not take fractions", got=[d0.sampling_interval, d0.offset,
+                                                                                         f.blocks[0].data_arrays["same"].expansion_origin])
     before = _observe(_collect(f)); f.close()
     g = nixio.File.open(path, nixio.FileMode.ReadOnly); after = _observe(_collect(g)); g.close()
     r = diff(before, after)
